@@ -1638,7 +1638,7 @@ def main(chk: C.Check, build: C.Build) -> None:
         evaluations += 1
         n_hook += 1
         items.append(model_item(prog, data, False, out, src))
-    n_rand = 1100 if not thorough else 14000
+    n_rand = 900 if not thorough else 12000
     for i in range(n_rand):
         data = g.data()
         prog = g.program(data)
